@@ -250,7 +250,7 @@ func findSubValue(s string, sub, backup string, maxSize int) (value string) {
 			return
 		}
 		// 用backup再找一遍
-		n = strings.Index(s, backup)
+		n = strings.Index(s, backup+":")
 		if n == -1 {
 			return
 		}
